@@ -16,7 +16,7 @@ pub static DEF: PropDef = PropDef {
     id: "C07",
     level: "exploration",
     engine: "meta-cas",
-    rule: "one run = one generated history of 6..25 register (incl. re-registration of a path with another interval) / delete / complete_compaction operations applied identically to a real LocalMetadataClient and a real ObjectStoreMetadataClient, with 3..6 range lookups after every operation on both backends and on a second object-store client whose 60 s catalog cache is aged in virtual time; intervals and ranges drawn from hour boundaries +-1 ns, negative timestamps, zero-length, multi-day and (rarely) multi-year spans (thorough tier: 8 extra runs whose first chunk reaches from the epoch to now), inverted ranges; half of the runs inject store request failures into mutations (failed mutation must leave lookups exact); distinct = distinct hash of the operation/lookup history; non-trivial = completed AND the history contained a multi-bucket chunk, a boundary-exact touch or a re-registration",
+    rule: "one run = one generated history of 6..25 register (incl. re-registration of a path with another interval) / delete / complete_compaction operations applied identically to a real LocalMetadataClient and a real ObjectStoreMetadataClient, with 3..6 range lookups after every operation on both backends and on a second object-store client whose 60 s catalog cache is aged in virtual time; intervals and ranges drawn from hour boundaries +-1 ns, negative timestamps, zero-length, multi-day and (rarely) multi-year spans, chunks at the very end / start of the representable time line, ranges open at either end (i64::MIN / i64::MAX) (thorough tier: 8 extra runs whose first chunk reaches from the epoch to now), inverted ranges; half of the runs inject store request failures into mutations (failed mutation must leave lookups exact); distinct = distinct hash of the operation/lookup history; non-trivial = completed AND the history contained a multi-bucket chunk, a boundary-exact touch or a re-registration",
     quick_runs: 15000,
     thorough_runs: 200_000,
     run_cap_ms: 240_000,
@@ -76,7 +76,11 @@ fn scen(spec: RunSpec) -> ScenFut {
                     } else {
                         span
                     };
-                    let (min, max) = if decades && step == 0 {
+                    let (min, max) = if !decades && sim::w(60) == 59 {
+                        // a chunk at the very end (or start) of the representable time line (sentinel timestamps)
+                        sim::probe("chunk-at-the-end-of-the-time-line");
+                        [(i64::MAX - 10, i64::MAX), (i64::MAX - HOUR - 5, i64::MAX - 1), (i64::MIN, i64::MIN + 10)][sim::w(3) as usize]
+                    } else if decades && step == 0 {
                         sim::probe("chunk-spans-decades");
                         (sim::w(3) as i64, sim::EPOCH_NS as i64 + sim::w(3) as i64 * HOUR)
                     } else {
@@ -165,6 +169,18 @@ fn scen(spec: RunSpec) -> ScenFut {
                 let a = pick_ts();
                 let len = [0i64, 1, -1, HOUR - 1, HOUR, 3 * HOUR, -2 * HOUR, 40 * HOUR][sim::w(8) as usize];
                 let (start, end) = (a, a + len);
+                // open-ended ranges are written with the extreme values ("everything since a", "everything up to a")
+                let (start, end) = match sim::w(14) {
+                    12 => {
+                        sim::probe("range-open-at-the-end(i64::MAX)");
+                        (a, i64::MAX)
+                    }
+                    13 => {
+                        sim::probe("range-open-at-the-start(i64::MIN)");
+                        (i64::MIN, a)
+                    }
+                    _ => (start, end),
+                };
                 if start > end {
                     sim::probe("inverted-range");
                 }
